@@ -37,8 +37,15 @@ theorem load_frame (inv : Arr → Arr) (d : Dir) (v : View) (d' : Dir) (h : load
 
 /-- Loading rejects non-monotonic spike times (KiloSort layout). -/
 theorem load_rejects_nonmonotone (inv : Arr → Arr) (d : Dir) (s : Arr) (hs : d.lookup "spike_times.npy" = some s)
-    (hm : monotone s.data = false) : load inv d = .error .nonMonotone :=
+    (hm : monotone (scrub s).data = false) : load inv d = .error .nonMonotone :=
   Lemmas.load_rejects_nonmonotone inv d s hs hm
+
+/-- A directory holding both a KiloSort-named and an ALF-named spike-cluster file is not loaded (the
+loader accepts only one). -/
+theorem load_rejects_two_cluster_files (inv : Arr → Arr) (d : Dir)
+    (h1 : (findPath d ["spike_clusters.npy"]).isSome) (h2 : (findPath d ["spikes.clusters*.npy"]).isSome)
+    (v : View) (d' : Dir) : load inv d ≠ .ok (v, d') :=
+  Lemmas.load_rejects_two_cluster_files inv d h1 h2 v d'
 
 /-- NaN/inf are replaced by zero in fully loaded arrays, finite cells and the shape are kept. -/
 theorem scrub_spec (a : Arr) :
@@ -56,13 +63,12 @@ theorem clusters_default (inv : Arr → Arr) (d : Dir) (v : View) (d' : Dir) (h 
       d'.lookup "spike_clusters.npy" = d.lookup f :=
   Lemmas.clusters_default inv d v d' h hn
 
-/-- Layout independence: a directory holding only KiloSort/phy-named arrays (NaN-free spike samples)
+/-- Layout independence: a directory holding only KiloSort/phy-named arrays
 and the ALF-named directory holding the same arrays (plus any non-decreasing spike times in seconds)
 load to the same samples, amplitudes, templates, clusters, channel tables, waveforms and matrices;
 only the time source differs (stored seconds instead of samples over rate). -/
 theorem load_layout_independent (inv : Arr → Arr) (d : Dir) (t : Arr)
     (hks : ∀ n ∈ d.map (·.1), n ∈ ksNames)
-    (hs : ∀ s, d.lookup "spike_times.npy" = some s → allNum s = true)
     (ht : monotone (scrub t).data = true)
     (v : View) (d' : Dir) (h : load inv d = .ok (v, d')) :
     ∃ v' d'', load inv (toALF d t) = .ok (v', d'') ∧
@@ -72,7 +78,7 @@ theorem load_layout_independent (inv : Arr → Arr) (d : Dir) (t : Arr)
       v'.channelPositions = v.channelPositions ∧ v'.channelShanks = v.channelShanks ∧
       v'.channelProbes = v.channelProbes ∧ v'.templates = v.templates ∧
       v'.templateCols = v.templateCols ∧ v'.wm = v.wm ∧ v'.wmi = v.wmi ∧ v'.similar = v.similar :=
-  Lemmas.load_layout_independent inv d t hks hs ht v d' h
+  Lemmas.load_layout_independent inv d t hks ht v d' h
 
 /-! Non-vacuity -/
 example :
@@ -85,7 +91,12 @@ example :
     (some ⟨[3], [.num 1, .num 0, .num 0]⟩,
      ["spike_times.npy", "spike_templates.npy", "channel_map.npy", "channel_positions.npy", "amplitudes.npy",
       "spike_clusters.npy", "whitening_mat_inv.npy"], true) := by decide
-example : findPath [("spikes.clusters.npy", ⟨[], []⟩), ("spike_clusters.npy", ⟨[], []⟩)] ["spike_clusters.npy", "spikes.clusters*.npy"]
-    = some "spike_clusters.npy" := by decide
+example : findPath [("spikes.amps.npy", ⟨[], []⟩), ("amplitudes.npy", ⟨[], []⟩)] ["amplitudes.npy", "spikes.amps*.npy"]
+    = some "amplitudes.npy" := by decide
+example :
+    load id [("spike_times.npy", ⟨[2], [.num 1, .num 4]⟩), ("spike_templates.npy", ⟨[2], [.num 0, .num 1]⟩),
+             ("spikes.clusters.npy", ⟨[2], [.num 0, .num 1]⟩), ("spike_clusters.npy", ⟨[2], [.num 0, .num 1]⟩),
+             ("channel_map.npy", ⟨[1], [.num 0]⟩), ("channel_positions.npy", ⟨[1, 2], [.num 0, .num 0]⟩)]
+      = .error (.conflict "spike clusters") := by rfl
 
 end PhyVerif.C04
